@@ -5,6 +5,8 @@ kinds:
   sitefail a copy site asked to apply a rejected value: it raises and leaves the caller's objects alone
   observe  behavioural isolation of Observation runs against standalone exposures
   fitness  ModelFittingDataTree.fitness called directly, against standalone exposures
+  calibration  a real calibration on an archipelago of several islands: caller snapshot, every evaluated candidate and the
+           champions' simulated frames (update_processor via fitness / _apply_parameters) against standalone exposures
 """
 from __future__ import annotations
 
@@ -976,6 +978,149 @@ def do_fitness(p, keep):
 
 
 # ----------------------------------------------------------------------------------------------
+# kind "calibration": a REAL calibration (pygmo archipelago, several islands evaluating candidates concurrently)
+# ----------------------------------------------------------------------------------------------
+TOL = 1e-9
+
+
+def _close(a, b) -> bool:
+    return abs(a - b) <= TOL * max(1.0, abs(a), abs(b))
+
+
+def _canon_pair(obs, std):
+    """Two lists of floats -> two lists of ints that are equal iff the floats agree within TOL (the candidates are
+    arbitrary binary64 values chosen by pygmo: no exact rational form; tolerance on this oracle only)."""
+    si = [int(round(v * 1024)) for v in std]
+    if len(obs) == len(std) and all(_close(a, b) for a, b in zip(obs, std)):
+        return list(si), si
+    oi = [int(round(v * 1024)) for v in obs]
+    if oi == si:
+        oi = oi + [1]
+    return oi, si
+
+
+def do_calibration(p, keep):
+    import pyxel
+    from pyxel.calibration import Algorithm, Calibration
+    from pyxel.calibration.fitting_datatree import ModelFittingDataTree
+    from pyxel.observation import ParameterValues
+    from pyxel.pipelines import FitnessFunction
+
+    spec = p["spec"]
+    target = float(p.get("target", 0.0))
+    variables = [(v["key"], float(v["lo"]), float(v["hi"])) for v in p["variables"]]
+    inputs = [(q["key"], list(q["values"])) for q in p.get("input_arguments") or []]
+    nproc = len(inputs[0][1]) if inputs else 1
+    det, pipe, readout = build(spec)
+    keep.append((det, pipe, readout))
+    rows, cols = det.geometry.row, det.geometry.col
+    nt = len(readout.times)
+    names = []
+    for i in range(nproc):
+        name = str(Path("ctarget%d.npy" % i).resolve())
+        np.save(name, np.full((nt, rows, cols), target, dtype=float))
+        names.append(name)
+    cal = Calibration(
+        target_data_path=names,
+        fitness_function=FitnessFunction(func="pyxel.calibration.fitness.sum_of_abs_residuals"),
+        algorithm=Algorithm(type="sade", generations=int(p.get("generations", 1)),
+                            population_size=int(p.get("pop", 7))),
+        parameters=[ParameterValues(key=k, values="_", boundaries=(lo, hi)) for k, lo, hi in variables],
+        result_input_arguments=([ParameterValues(key=k, values=list(v)) for k, v in inputs] or None),
+        readout=readout, result_type="pixel", result_fit_range=(0, rows, 0, cols), target_fit_range=(0, rows, 0, cols),
+        pygmo_seed=int(p.get("pygmo_seed", 1)), num_islands=int(p.get("islands", 2)),
+        num_evolutions=int(p.get("evolutions", 1)), num_best_decisions=int(p.get("num_best", 0)),
+        topology="ring" if int(p.get("islands", 2)) > 1 else "unconnected")
+    log, lock = [], threading.Lock()
+    orig_fit = ModelFittingDataTree.fitness
+
+    problems = []
+
+    def wrapped(self, decision_vector_1d):
+        x0 = [float(v) for v in np.array(decision_vector_1d, dtype=float)]
+        f = orig_fit(self, decision_vector_1d)
+        with lock:
+            log.append((x0, float(f[0]), threading.current_thread().name))
+            if not any(q is self for q in problems):
+                problems.append(self)
+        return f
+
+    before = _snap_many(detector=det, pipeline=pipe, readout=readout)
+    out = {"before": snap_list(before), "raised": None, "evals": [], "champions": []}
+    ModelFittingDataTree.fitness = wrapped
+    prev_disabled = logging.root.manager.disable
+    dt = None
+    try:
+        logging.disable(logging.CRITICAL)
+        import dask
+
+        with dask.config.set(scheduler=p.get("scheduler") or "threads"):
+            dt = pyxel.run_mode(mode=cal, detector=det, pipeline=pipe, with_inherited_coords=True)
+        champ = np.asarray(dt["/champion/parameters"].isel(evolution=-1).values, dtype=float)   # island, param
+    except Exception as ex:  # noqa: BLE001
+        out["raised"] = _exc(ex)
+        out["raised_msg"] = str(ex)[:300]
+    finally:
+        ModelFittingDataTree.fitness = orig_fit
+        logging.disable(prev_disabled)
+    after = _snap_many(detector=det, pipeline=pipe, readout=readout)
+    out["after"] = snap_list(after)
+    out["changed"] = snap_diff(before, after)[:10]
+    out["n_evals"] = len(log)
+    out["threads"] = len({t for _, _, t in log})
+
+    def standalone_fitness(x):
+        params = {k: float(v) for (k, _, _), v in zip(variables, x)}
+        total = 0.0
+        sims = []
+        for i in range(nproc):
+            pi = dict(params)
+            for k, vals in inputs:
+                pi[k] = vals[i]
+            _, _, raised, vals_i = _standalone(spec, pi)
+            if raised is not None:
+                return None, None, raised
+            a = np.array(vals_i, dtype=float).reshape((-1, rows, cols))
+            sims.append(a)
+            total += float(np.nansum(np.abs(np.full((rows, cols), target) - a)))
+        return total, sims, None
+
+    # every candidate evaluated by the islands is judged against an independently built exposure (a sample of them when
+    # there are many: first, last and evenly spaced ones)
+    limit = int(p.get("max_judged", 24))
+    idx = list(range(len(log)))
+    if len(idx) > limit:
+        step = len(idx) / float(limit)
+        idx = sorted({int(i * step) for i in range(limit)} | {0, len(log) - 1})
+    for i in idx:
+        x, f, _ = log[i]
+        total, _, raised = standalone_fitness(x)
+        if raised is not None:
+            out["evals"].append({"x": x, "obs": [int(round(f * 1024))], "std": None, "std_raised": raised})
+            continue
+        oi, si = _canon_pair([f], [total])
+        out["evals"].append({"x": x, "obs": oi, "std": si, "f": f, "f_std": total})
+    if dt is not None and out["raised"] is None and problems:
+        for isl in range(champ.shape[0]):
+            x = [float(v) for v in champ[isl]]
+            _, sims, raised = standalone_fitness(x)
+            if raised is not None:
+                out["champions"].append({"x": x, "obs": [0], "std": None, "std_raised": raised})
+                continue
+            # the champion's frames as the calibration's own post-processing computes them (_apply_parameters on each
+            # template processor; the /simulated nodes of the returned tree cannot be computed: finding C11-resim)
+            mf = problems[0]
+            obs = []
+            for tmpl in mf.param_processor_list:
+                tree = mf._apply_parameters(processor=tmpl, parameter=np.array(x, dtype=float))
+                obs += _flatten_core(_pixel_da(tree))
+            std = [float(v) for a in sims for v in a.reshape(-1)]
+            oi, si = _canon_pair(obs, std)
+            out["champions"].append({"x": x, "obs": oi, "std": si})
+    return out
+
+
+# ----------------------------------------------------------------------------------------------
 def handle(p):
     import warnings
 
@@ -997,6 +1142,8 @@ def handle(p):
             return do_observe(p, keep)
         if kind == "fitness":
             return do_fitness(p, keep)
+        if kind == "calibration":
+            return do_calibration(p, keep)
         return {"error": "unknown kind %r" % (kind,)}
     except Exception as ex:  # noqa: BLE001
         import traceback
